@@ -688,6 +688,48 @@ func c14Refusals(spec c14Spec, res *core.CaseResult, verbose bool) {
 		b3, _ := ctx.CacheContext()
 		try("plain-former-target-as-source", b3, t3.Acc(), stranger.Hex(), w.sig(t3.Acc(), stranger))
 	}
+	// a validator operator that has withdrawn its own stake (the validator lives on other people's delegations):
+	// it holds no staking record any more and is an operator all the same (kept last: it disturbs the validator set)
+	defer func() {
+		if res.Inconclusive != "" {
+			return
+		}
+		op := c.Vals[1].Operator
+		val := op.Val()
+		if r := c.Msg(stakingtypes.NewMsgDelegate(c.Users[2].Bech32(), val.String(), chain.FXCoin(1000))); !r.OK() {
+			return
+		}
+		del, err := c.App.StakingKeeper.GetDelegation(c.Ctx, op.Acc(), val)
+		v, err2 := c.App.StakingKeeper.GetValidator(c.Ctx, val)
+		if err != nil || err2 != nil {
+			return
+		}
+		own := v.TokensFromShares(del.Shares).TruncateInt()
+		if r := c.Msg(stakingtypes.NewMsgUndelegate(op.Bech32(), val.String(), sdk.NewCoin(fxtypes.DefaultDenom, own))); !r.OK() {
+			if verbose {
+				fmt.Println("operator undelegate:", r.ErrString())
+			}
+			return
+		}
+		if _, err := c.EndBlock(22 * 24 * time.Hour); err != nil {
+			return
+		}
+		c.Skip(1)
+		if _, err := c.App.StakingKeeper.GetDelegation(c.Ctx, op.Acc(), val); err == nil {
+			return
+		}
+		if _, err := c.App.StakingKeeper.GetValidator(c.Ctx, val); err != nil {
+			return // the validator is gone altogether: nothing to test
+		}
+		p5 := srcKey(spec.Seed, "src5")
+		s5 := sdk.AccAddress(p5.PubKey().Address())
+		acc5 := c.App.AccountKeeper.NewAccountWithAddress(c.Ctx, s5)
+		_ = acc5.SetPubKey(p5.PubKey())
+		c.App.AccountKeeper.SetAccount(c.Ctx, acc5)
+		fix.Fund(c, s5, chain.FXCoin(7))
+		res.Count("operator_without_own_stake_checks", 1)
+		try("target-is-operator-without-own-stake", c.Branch(), s5, op.Hex(), w.sig(s5, op))
+	}()
 	// a source that still holds locked (vesting) coins: all or nothing
 	{
 		ctx := c.Branch()
